@@ -146,10 +146,16 @@ def decideAt (wc : WC) (disk : Disk) (ign : Path → Bool) (p : Path) : Decision
       else if !tracked && ign p then .keep    -- untracked and ignored
       else match valueOf (get wc.tree p) e with | some v => .record v | none => .keep
 
+/-- `MergedTreeBuilder::set_or_remove(path, value)` + `write_tree` on the flat view: writing
+`d/e` turns every ancestor that was a file entry into a directory (`TreeBuilder::write_tree`
+replaces the parent's entry by the new sub-tree), so those entries disappear. -/
+def treeSet (p : Path) (v : TreeValue) (t : Tree) : Tree :=
+  (p, v) :: (del p t).filter (fun e => !(e.1.isPrefixOf p))
+
 def applyDecision (acc : Tree × List Path) (p : Path) : Decision → Tree × List Path
   | .keep => acc
   | .delete => (del p acc.1, sdel p acc.2)
-  | .record v => (set p v acc.1, sins p acc.2)
+  | .record v => (treeSet p v acc.1, sins p acc.2)
 
 /-- paths that can get a non-`keep` decision: leaves on disk and paths with a file state -/
 def candidates (wc : WC) (disk : Disk) : List Path :=
